@@ -478,6 +478,14 @@ func c02histGen(c *ctx, r *gen.Rng, n int) {
 				}
 				out = append(out, "sync")
 			}
+			// the same certificate replicated into several secrets, renewed everywhere in one batch
+			if o == "sync" && r.Chance(1, 3) {
+				out = append(out, g.SharedSecOps()...)
+				if r.Chance(1, 2) {
+					out = append(out, g.ChurnOp())
+				}
+				out = append(out, "sync")
+			}
 		}
 		faults := "-"
 		if r.Chance(1, 3) {
@@ -505,6 +513,11 @@ func runC02(c *ctx) {
 	c02case(c, "C02", f, []c02ep{ep("srv001", "10.0.0.1", true, 1), ep("srv002", "10.0.0.2", true, 1)}, []c02ep{ep("srv001", "10.0.0.2", true, 1)}, []string{"oxo"})
 	// duplicate targets in the current list (what Gateway backendRefs resolving to the same address produce)
 	c02case(c, "C02", f, []c02ep{ep("srv001", "10.0.0.1", true, 1), ep("srv002", "127.0.0.1", false, 1)}, []c02ep{ep("srv001", "10.0.0.1", true, 1), ep("srv002", "10.0.0.1", true, 1)}, nil)
+	// one certificate replicated into two secrets (two files, same content) and renewed in one batch
+	c02hist(c, "-", strings.Fields("svc+d/app!http:80:8080!- ep~d/app!10.0.1.1:r:app-1 svc+e/app!http:80:8080!- ep~e/app!10.1.1.1:r:app-1 "+
+		"sec+d/tls1!tls!1000!a.local+b.local sec+e/tls1!tls!1000!a.local+b.local "+
+		"ing+d/i1@1!haproxy,-!-!a.local>/:Prefix:app:80!a.local>tls1!- ing+e/i2@2!haproxy,-!-!b.local>/:Prefix:app:80!b.local>tls1!- sync "+
+		"sec~d/tls1!tls!1001!a.local+b.local sec~e/tls1!tls!1001!a.local+b.local sync"))
 	r := gen.New(c.seed)
 	n := 6000
 	if c.thorough() {
